@@ -45,13 +45,23 @@ def _fd_of(handle):
     return handle.fileno()
 
 
-def _read_stdin(fd) -> str:
+def _read_stdin(fd, reads_it=True) -> str:
     if fd is None or fd < 0:
         return ''
     try:
         off = os.lseek(fd, 0, os.SEEK_CUR)
     except OSError:
-        return '<unseekable>'
+        # a pipe (or the like): a child that comes to an end reads it until end-of-file; one that never finishes never
+        # reads it - whoever feeds the pipe must cope with that
+        if not reads_it:
+            return '<never read>'
+        data = b''
+        while True:
+            chunk = os.read(fd, 65536)
+            if not chunk:
+                break
+            data += chunk
+        return data.decode('utf-8', errors='surrogateescape')
     data = b''
     while True:
         chunk = os.pread(fd, 65536, off + len(data))
@@ -117,7 +127,8 @@ class SimPopen:
         eff_env = dict(env) if env is not None else dict(os.environ)
         # a child that is given no stdin inherits that of the Exactly process: the text waiting there is part of the
         # simulated world (plan['exactly_stdin']), never the real stdin of the harness
-        stdin_txt = _read_stdin(fd_in) if stdin is not None else sim.plan.get('exactly_stdin', EXACTLYS_OWN_STDIN)
+        stdin_txt = _read_stdin(fd_in, _dur(b.get('duration', 0.01)) != INF) if stdin is not None else \
+            sim.plan.get('exactly_stdin', EXACTLYS_OWN_STDIN)
         SimPopen._pid_counter += 1
         self.pid = SimPopen._pid_counter
         rec = {
@@ -159,12 +170,19 @@ class SimPopen:
         if b.get('cat'):
             out = stdin_txt + out
         if b.get('cat_last_arg_file') and not isinstance(args, str):
-            # e.g. a preprocessor: prints the file named by its last argument (relative to its cwd)
-            try:
-                with open(os.path.join(eff_cwd, os.fspath(list(args)[-1])), 'rb') as f:
-                    out = f.read().decode('utf-8', errors='surrogateescape') + out
-            except OSError:
-                pass
+            # e.g. a preprocessor that works like cat / sed: prints the files named by ALL its file operands (the
+            # arguments that are no options), relative to its cwd, in order
+            texts = []
+            for a in list(args)[1:]:
+                a = os.fspath(a)
+                if a.startswith('-'):
+                    continue
+                try:
+                    with open(os.path.join(eff_cwd, a), 'rb') as f:
+                        texts.append(f.read().decode('utf-8', errors='surrogateescape'))
+                except OSError:
+                    pass
+            out = ''.join(texts) + out
         if b.get('varying'):
             out = out.replace('{n}', str(n))
             err = err.replace('{n}', str(n))
